@@ -1433,6 +1433,8 @@ def make_builtins(I: Interp):
             return isinstance(x, (int, float, Sym))
         if name == "Generator":
             return getattr(x, "is_rng", False)
+        if name == "NoneType" or t is type(None):
+            return x is None
         raise Unsupported(f"isinstance against {name}")
 
     def b_int(x=0):
